@@ -102,7 +102,7 @@ class C13(Sim):
             "polyline split) and >= 1 observation")
     FAULT_KINDS = ["warm", "reject"]
     PROBES = ["polygon_input", "quad_input", "closed_surface", "bordered_surface", "multi_op_block", "second_block", "area_checked", "centre_checked",
-              "input_observed", "result_observed", "volume_block", "polyline_split", "face_centre_split_interior", "sdbet", "int_coordinates", "exception_leaves_block", "boundary_of_refined_volume", "non_list_rows", "boundary_data_carried_over", "other_block_in_between", "small_geometry"]
+              "input_observed", "result_observed", "volume_block", "polyline_split", "face_centre_split_interior", "sdbet", "int_coordinates", "exception_leaves_block", "boundary_of_refined_volume", "non_list_rows", "boundary_data_carried_over", "other_block_in_between", "small_geometry", "verbose_block"]
     QUICK_RUNS = 2500
     THOROUGH_RUNS = 250000
     BLOCK = 20
@@ -250,7 +250,7 @@ class C13(Sim):
             return {"c": "editor", "op": "sdbet"}
         op = r.choice(choices)
         if op == "open":
-            return {"c": "editor", "op": "open"}
+            return {"c": "editor", "op": "open", "verbose": r.chance(0.15)}
         return {"c": "observer", "op": op, "qseed": r.below(1 << 30)}
 
     def _prop_sop(self, r):
@@ -300,6 +300,11 @@ class C13(Sim):
                 ok = is_conforming_tet_mesh([[float(x) for x in p] for p in p2], e2)
             if ok:
                 yield dict(cfg, world=dict(w, **{"points": p2, key: e2}))
+
+    def close(self):
+        if getattr(self, "_stdout", None) is not None:
+            import sys
+            sys.stdout, self._stdout = self._stdout, None
 
     def applicable(self, ev):
         op = ev["op"]
@@ -388,7 +393,7 @@ class C13(Sim):
             helper.interior_v = sorted(set(range(n)) - set(helper.border_v))
             helper.edge_pairs = sorted(ref.all_edge_pairs())
             names = ["v2v", "v2f", "v2c", "v2e", "next", "opp", "he2c", "direct_face", "face_id", "f2f", "f2e", "f2v", "boundary_edges",
-                     "interior_vertices", "boundary_vertices", "is_edge_on_border", "edge_id", "in_face_index", "f2c", "is_triangular", "is_quad"]
+                     "interior_vertices", "boundary_vertices", "is_edge_on_border", "is_vertex_on_border", "edge_id", "in_face_index", "f2c", "is_triangular", "is_quad"]
             Qt, judge = c01.Q, lambda q, mode, got, exp: c01.judge(q, mode, got, exp, True)
         # the border family keeps its own lazily built tables (lists and per-element flags): asked more often than its share of the names
         border_names = [q for q in names if q.startswith(("boundary_", "interior_")) or q.endswith("_on_border")]
@@ -514,7 +519,15 @@ class C13(Sim):
             self.input_obj = self.cur
             self.input_snap = self._snap(self.cur)
             cls = M.mesh.SurfaceSubdivision if self.kind == "surface" else M.mesh.VolumeSubdivision
-            o = call(cls, self.cur)
+            if ev.get("verbose"):
+                # the documented `verbose` option: what the block prints goes to a scratch stream until the run ends
+                import io, sys
+                if getattr(self, "_stdout", None) is None:
+                    self._stdout, sys.stdout = sys.stdout, io.StringIO()
+                self.probes["verbose_block"] += 1
+                o = call(cls, self.cur, verbose=True)
+            else:
+                o = call(cls, self.cur)
             if not o.ok:
                 self.exc_violation("accepts-admitted-mesh", "open", o, self.kind)
             ed = o.value
